@@ -245,8 +245,10 @@ int main(void)
 			__atomic_store_n(&rb.readi, s, __ATOMIC_SEQ_CST);
 			__atomic_store_n(&rb.writei, s, __ATOMIC_SEQ_CST);
 			baton_forget_names();
+#ifndef VERIF_BLACKBOX   /* field names are cosmetic: without them a location prints as <object>+<offset> */
 			baton_name(&rb.readi, sizeof rb.readi, "rb.readi");
 			baton_name(&rb.writei, sizeof rb.writei, "rb.writei");
+#endif
 			baton_name(&rb, sizeof rb, "rb");
 			baton_name(ringmem, l, "buf");
 			baton_init();
@@ -262,10 +264,12 @@ int main(void)
 			memset(mqmem, 0, (size_t)depth * mq_msglen);
 			messageq_init(&mq, mqmem, (size_t)depth * mq_msglen, mq_msglen);
 			baton_forget_names();
+#ifndef VERIF_BLACKBOX   /* field names are cosmetic: without them a location prints as <object>+<offset> */
 			baton_name(&mq.num_free, sizeof mq.num_free, "mq.num_free");
 			baton_name(&mq.sendp, sizeof mq.sendp, "mq.sendp");
 			baton_name(&mq.full_flags, sizeof mq.full_flags, "mq.full_flags");
 			baton_name(&mq.receivep, sizeof mq.receivep, "mq.receivep");
+#endif
 			baton_name(&mq, sizeof mq, "mq");
 			baton_name(mqmem, (size_t)depth * mq_msglen, "slots");
 			baton_init();
@@ -300,10 +304,12 @@ int main(void)
 			memset(evmem, 0, sizeof evmem);
 			fibre_eventq_init(&evq, evq_handler, evmem, sizeof evmem, EVSZ);
 			baton_forget_names();
+#ifndef VERIF_BLACKBOX   /* field names are cosmetic: without them a location prints as <object>+<offset> */
 			baton_name(&evq.eventq.num_free, sizeof evq.eventq.num_free, "evq.num_free");
 			baton_name(&evq.eventq.sendp, sizeof evq.eventq.sendp, "evq.sendp");
 			baton_name(&evq.eventq.full_flags, sizeof evq.eventq.full_flags, "evq.full_flags");
 			baton_name(&evq.eventq.receivep, sizeof evq.eventq.receivep, "evq.receivep");
+#endif
 			baton_name(&evq, sizeof evq, "evq");
 			baton_name(evmem, sizeof evmem, "events");
 			h_race_fibre_names(baton_name);
